@@ -1364,6 +1364,16 @@ void AStarPathPrivate::search(ConnRef *lineRef, VertInf *src, VertInf *tar, Vert
                     // are the target endpoint.
                     continue;
                 }
+                if (tar->id.isDummyPinHelper() &&
+                        bestNodeInf->id.isConnectionPin() && prevInf &&
+                        (prevInf == lineRef->src()) &&
+                        prevInf->id.isDummyPinHelper())
+                {
+                    // Both ends are attached to pins and this is the pin
+                    // the path entered directly from the source: one pin
+                    // can't serve both ends of the connector.
+                    continue;
+                }
             }
 
             if (isOrthogonal && pruneTurns && !(*edge)->isDummyConnection())
